@@ -99,13 +99,14 @@ def check(index, ctx):
             _layout.check_layout(ctx, "R2", res)
             materialise_rule(ctx, res, "R4", entry)
             # R3 overlap check first
-            ov = [e for e in _pipe.evs(res, "set_op") if e["op"] == "BitAnd" and {tuple(e["left"]), tuple(e["right"])} == {(ta,), (sa,)}]
+            ov = [e for e in _pipe.evs(res, "set_op") if e["op"] in ("BitAnd", "In") and {tuple(e["left"]), tuple(e["right"])} == {(ta,), (sa,)}]
             first = min(e["seq"] for e in ag + gw)
             ctx.require(bool(ov) and ov[0]["seq"] < first, "R3", f"{run.label}: overlap of task and shared parameters is tested first" if ov else "mtl_backward: overlap check",
                         "intersection of the (defaulted or given) collections computed before any differentiation",
                         "no intersection of the task parameters with the shared parameters is computed before the pipeline runs", entry.loc())
         rej = [r for r in run.raising() if r.exc.exc_name == "ValueError" and _pipe.overlap_rejection(r)
                and not _pipe.evs(r, "autograd", "grad_write")]
+        rej = rej or [r for r in run.results if _pipe.loop_overlap_rejection(r)]
         ctx.require(bool(rej), "R3", f"{run.label}: overlapping collections are rejected", "a path raises ValueError on a non-empty intersection before anything runs",
                     "no path rejects overlapping shared/task parameters with ValueError before the pipeline runs", entry.loc())
     from .C01 import idiom_rules
